@@ -72,6 +72,8 @@ class Spy:
             return GeminiResponse(status=20, meta="text/gemini\nX: y", body="x")
         if b == "crlf-in-error":
             return GeminiResponse(status=51, meta="Not found\r\n20 text/gemini", body=None)
+        if b == "bare-cr-in-error":
+            return GeminiResponse(status=51, meta="Not found\r20 text/gemini")
         if b == "long-meta":
             return GeminiResponse(status=30, meta="gemini://h/" + "a" * 2000)
         if b == "status-7":
@@ -88,6 +90,8 @@ class Spy:
         self.calls.append(request)
         if self.behaviour == "raise":
             raise RuntimeError("handler exploded\r\n20 text/gemini")
+        if self.behaviour == "raise-cr":
+            raise RuntimeError("convert: 10%\rconvert: 100%")
         if self.behaviour == "raise-lookup":
             raise LookupError("unknown encoding")
         return self.response()
@@ -98,6 +102,8 @@ class Spy:
             await asyncio.sleep(0)
             if self.behaviour == "raise":
                 raise RuntimeError("async handler exploded")
+            if self.behaviour == "raise-cr":
+                raise RuntimeError("convert: 10%\rconvert: 100%")
             if self.behaviour == "raise-lookup":
                 raise LookupError("unknown encoding")
             return self.response()
@@ -152,6 +158,13 @@ def cuts(data, how):
     if how == "crlf-split":
         i = data.find(b"\r\n")
         return [data[:i + 1], data[i + 1:]] if i >= 0 else [data]
+    if how == "crlf-split-3":
+        i = data.find(b"\r\n")
+        if i < 0:
+            return [data]
+        rest = data[i + 1:]
+        k = max(1, len(rest) // 2)
+        return [data[:i + 1], rest[:k], rest[k:]]
     if how == "three-late":
         i = data.find(b"\r\n")
         if i < 0:
@@ -223,12 +236,12 @@ def run(coro):
 
 
 VALID = b"gemini://example.org/docs/a.gmi?q=1\r\n"
-LINES = [VALID, b"gemini://example.org\r\n", b"GEMINI://EXAMPLE.org/x\r\n",
+LINES = [VALID, VALID + b"t" * 2000, b"titan://example.org/big.bin;size=1536;mime=text/plain\r\n" + b"c" * 1536 + b"zz", b"gemini://example.org\r\n", b"GEMINI://EXAMPLE.org/x\r\n",
          b"gemini://\n\r\n", b"http://example.org/\r\n", b"gemini://u:p@example.org/\r\n", b"gemini://example.org/#frag\r\n",
          b"\xff\xfe\r\n", b"gemini://example.org/" + b"a" * 1003 + b"\r\n", b"gemini://example.org/" + b"a" * 1100 + b"\r\n",
          b"x" * 1100, b"titan://example.org/up.txt;size=5;mime=text/plain\r\nhello", b"titan://example.org/up.txt;size=0\r\n",
          b"titan://example.org/up.txt;size=-1\r\nx", b"titan://example.org/up.txt\r\n"]
-BEHAVIOURS = ["ok", "bytes", "body-on-51", "lf-in-meta", "crlf-in-error", "long-meta", "status-7", "status-99", "surrogate-body", "surrogate-meta", "raise", "raise-lookup"]
+BEHAVIOURS = ["ok", "bytes", "bare-cr-in-error", "raise-cr", "body-on-51", "lf-in-meta", "crlf-in-error", "long-meta", "status-7", "status-99", "surrogate-body", "surrogate-meta", "raise", "raise-lookup"]
 CHAINS = [None, "allow", "deny", "deny-none", "deny-garbage", "deny-two-lines", "raise"]
 
 
@@ -303,7 +316,7 @@ def bank(focus=None):
     # ---- C07 / C08: request lines x segmentations x trailing reads ---------------------------------
     for line, chain, up in itertools.product(LINES, (None, "allow", "deny"), (None, "ok")):
         base = None
-        for how in ("one", "two", "bytes", "crlf-split", "three-late"):
+        for how in ("one", "two", "bytes", "crlf-split", "crlf-split-3", "three-late"):
             tried += 1
             parts = cuts(line, how)
             r = run(drive(parts, "sync", "ok", chain, up, extra_reads=(b"garbage after request", b"more\r\n")))
